@@ -272,3 +272,13 @@ Fixpoint deliver (s : wstream) (e : wentry) : list (N * wentry) :=
   | STee a b => deliver a e ++ deliver b e
   | SOutputTo s' => deliver s' e                                  (* self.format.format(entry, &mut self.output) *)
   end.
+
+(* The Result of `next` / `format`: terminals numbered 256 and up fail with their number.  Tee evaluates both
+   sides (`s1.next(e).and(s2.next(e))`), so both are delivered to, and reports the first error. *)
+Definition term_fails (id : N) : bool := 256 <=? id.
+Fixpoint sresult (s : wstream) : option N :=
+  match s with
+  | STerm id => if term_fails id then Some id else None
+  | SMergeGlobals s' _ | SMergeGDims s' _ _ | SForce s' _ | SOutputTo s' => sresult s'
+  | STee a b => match sresult a with Some e => Some e | None => sresult b end
+  end.
